@@ -435,6 +435,27 @@ impl<'a> SpecGen<'a> {
             paths.insert(tpl.to_string(), Value::Object(item));
         }
         let mut doc = json!({"openapi": "3.0.0", "info": {"title": "generated", "version": "1"}, "paths": paths, "components": {"schemas": schemas}});
+        // some parameters are declared once under components.parameters and referenced
+        let mut shared_params = Map::new();
+        if let Some(paths) = doc["paths"].as_object_mut() {
+            for (_, item) in paths.iter_mut() {
+                let Some(item) = item.as_object_mut() else { continue };
+                let mut lists: Vec<&mut Value> = vec![];
+                for (k, v) in item.iter_mut() {
+                    if k == "parameters" { lists.push(v); } else if let Some(ps) = v.get_mut("parameters") { lists.push(ps); }
+                }
+                for l in lists {
+                    let Some(a) = l.as_array_mut() else { continue };
+                    for p in a.iter_mut() {
+                        if p.get("$ref").is_some() || !self.rng.chance(1, 7) { continue; }
+                        let cname = format!("P{}", shared_params.len());
+                        shared_params.insert(cname.clone(), p.clone());
+                        *p = json!({"$ref": format!("#/components/parameters/{cname}")});
+                    }
+                }
+            }
+        }
+        if !shared_params.is_empty() { doc["components"]["parameters"] = Value::Object(shared_params); self.feat("referenced_parameter"); }
         if self.opts.servers {
             let n = [0usize, 1, 1, 2, 2, 3, 4][self.rng.below(7)];
             let descs = [Some("Production server"), Some("sandbox"), Some("Beta (unstable)"), Some("Development"), None, Some("Main"), Some("the PRODUCTION one"), Some("EU region")];
